@@ -530,7 +530,8 @@ def rgb_to_hsl(rgb_color):
         h = 0
         s = 0
     else:
-        s = diff / (1 - abs(2 * l - 1))
+        # mathematically s <= 1; float rounding can exceed it, and hsl_to_rgb rejects s > 1
+        s = max(0.0, min(1.0, diff / (1 - abs(2 * l - 1))))
 
         if mx == r:
             h = (g - b) / diff % 6
